@@ -67,7 +67,8 @@ class OpAdd(Op):
         target = self.path.parts[-1]
         if isinstance(parent, MutableSequence):
             if obj is UNDEFINED:
-                if target == "-":
+                if target == "-" or target == len(parent):
+                    # RFC 6902: the index may be equal to the array's length.
                     parent.append(self.value)
                 else:
                     raise JSONPatchError("index out of range")
